@@ -236,4 +236,121 @@ theorem find_same_dissect {s s' : Instance} {str : Bytes} {r : Option View}
   repeat' split at h
   all_goals first | cases h; rfl | cases h
 
+
+def pick (w : Bool) {α : Type} (l : List (Bool × α)) : List α := (l.filter fun x => x.1 == w).map (·.2)
+
+theorem runTwo_split : ∀ (sched : List (Bool × Bytes)) (a b : Instance) rs a' b',
+    runTwo a b sched = .ok (rs, a', b') →
+    runLines a (pick true sched) = .ok (pick true rs, a') ∧
+    runLines b (pick false sched) = .ok (pick false rs, b') := by
+  intro sched
+  induction sched with
+  | nil =>
+    intro a b rs a' b' h
+    simp only [runTwo, Except.ok.injEq, Prod.mk.injEq] at h
+    obtain ⟨rfl, rfl, rfl⟩ := h
+    simp [pick, runLines]
+  | cons x rest ih =>
+    intro a b rs a' b' h
+    obtain ⟨w, l⟩ := x
+    cases w with
+    | true =>
+      simp only [runTwo, if_true] at h
+      cases hf : findSubmatchIndex a l with
+      | error e => simp [hf] at h
+      | ok ra =>
+        obtain ⟨r, a1⟩ := ra
+        simp only [hf] at h
+        cases hr : runTwo a1 b rest with
+        | error e => simp [hr] at h
+        | ok t =>
+          obtain ⟨rs1, a2, b2⟩ := t
+          simp only [hr, Except.ok.injEq, Prod.mk.injEq] at h
+          obtain ⟨rfl, rfl, rfl⟩ := h
+          obtain ⟨h1, h2⟩ := ih a1 b rs1 a2 b2 hr
+          refine ⟨?_, ?_⟩
+          · simp only [pick, List.filter_cons, beq_self_eq_true, if_true, List.map_cons, runLines, hf]
+            simp only [pick] at h1
+            rw [h1]
+          · simpa [pick, List.filter_cons] using h2
+    | false =>
+      simp only [runTwo, Bool.false_eq_true, if_false] at h
+      cases hf : findSubmatchIndex b l with
+      | error e => simp [hf] at h
+      | ok rb =>
+        obtain ⟨r, b1⟩ := rb
+        simp only [hf] at h
+        cases hr : runTwo a b1 rest with
+        | error e => simp [hr] at h
+        | ok t =>
+          obtain ⟨rs1, a2, b2⟩ := t
+          simp only [hr, Except.ok.injEq, Prod.mk.injEq] at h
+          obtain ⟨rfl, rfl, rfl⟩ := h
+          obtain ⟨h1, h2⟩ := ih a b1 rs1 a2 b2 hr
+          refine ⟨?_, ?_⟩
+          · simpa [pick, List.filter_cons] using h1
+          · simp only [pick, List.filter_cons, beq_self_eq_true, if_true, List.map_cons, runLines, hf]
+            simp only [pick] at h2
+            rw [h2]
+
+theorem pick_cons_same (w : Bool) {α : Type} (x : α) (l : List (Bool × α)) :
+    pick w ((w, x) :: l) = x :: pick w l := by simp [pick]
+
+theorem pick_cons_other (w : Bool) {α : Type} (x : α) (l : List (Bool × α)) :
+    pick w ((!w, x) :: l) = pick w l := by cases w <;> simp [pick]
+
+theorem runTwo_ok : ∀ (sched : List (Bool × Bytes)) (a b : Instance) va a' vb b',
+    runLines a (pick true sched) = .ok (va, a') → runLines b (pick false sched) = .ok (vb, b') →
+    ∃ rs, runTwo a b sched = .ok (rs, a', b') := by
+  intro sched
+  induction sched with
+  | nil =>
+    intro a b va a' vb b' ha hb
+    simp only [pick, List.filter_nil, List.map_nil, runLines, Except.ok.injEq, Prod.mk.injEq] at ha hb
+    exact ⟨[], by simp [runTwo, ha.2, hb.2]⟩
+  | cons x rest ih =>
+    intro a b va a' vb b' ha hb
+    obtain ⟨w, l⟩ := x
+    cases w with
+    | true =>
+      rw [pick_cons_same] at ha
+      have hb' : runLines b (pick false rest) = .ok (vb, b') := by
+        have := pick_cons_other false l rest
+        simp only [Bool.not_false] at this
+        rw [this] at hb; exact hb
+      simp only [runLines] at ha
+      cases hf : findSubmatchIndex a l with
+      | error e => simp [hf] at ha
+      | ok ra =>
+        obtain ⟨r, a1⟩ := ra
+        simp only [hf] at ha
+        cases hr : runLines a1 (pick true rest) with
+        | error e => simp [hr] at ha
+        | ok t =>
+          obtain ⟨va1, a2⟩ := t
+          simp only [hr, Except.ok.injEq, Prod.mk.injEq] at ha
+          obtain ⟨rs, hrs⟩ := ih a1 b va1 a2 vb b' hr hb'
+          refine ⟨(true, r) :: rs, ?_⟩
+          simp only [runTwo, if_true, hf, hrs, ha.2]
+    | false =>
+      rw [pick_cons_same] at hb
+      have ha' : runLines a (pick true rest) = .ok (va, a') := by
+        have := pick_cons_other true l rest
+        simp only [Bool.not_true] at this
+        rw [this] at ha; exact ha
+      simp only [runLines] at hb
+      cases hf : findSubmatchIndex b l with
+      | error e => simp [hf] at hb
+      | ok rb =>
+        obtain ⟨r, b1⟩ := rb
+        simp only [hf] at hb
+        cases hr : runLines b1 (pick false rest) with
+        | error e => simp [hr] at hb
+        | ok t =>
+          obtain ⟨vb1, b2⟩ := t
+          simp only [hr, Except.ok.injEq, Prod.mk.injEq] at hb
+          obtain ⟨rs, hrs⟩ := ih a b1 va a' vb1 b2 ha' hr
+          refine ⟨(false, r) :: rs, ?_⟩
+          simp only [runTwo, Bool.false_eq_true, if_false, hf, hrs, hb.2]
+
 end Rare.C12
